@@ -3,6 +3,7 @@
 package gtree
 
 import (
+	"io"
 	"context"
 	"errors"
 
@@ -17,16 +18,27 @@ func init() {
 
 
 // c14Err: the failure value of the reader / writer is the caller's business: a fresh error, or one of the context
-// package's own error values (a body or connection bound to some other context that was cancelled or timed out).
+// package's own error values (a body or connection bound to some other context that was cancelled or timed out), or
+// an error that wraps io.EOF without being it.
 func c14Err(fresh error) error {
-	switch verifChoose("errkind", 0, 2) {
+	switch verifChoose("errkind", 0, 3) {
 	case 1:
 		return context.Canceled
 	case 2:
 		return context.DeadlineExceeded
+	case 3:
+		return errVerifWrapsEOF
 	}
 	return fresh
 }
+
+// an error that is not io.EOF but wraps it (a transport that reports "stream cut short: EOF"): a failure, not the end
+type verifEOFWrap struct{}
+
+func (verifEOFWrap) Error() string { return "verif: stream cut short: EOF" }
+func (verifEOFWrap) Unwrap() error { return io.EOF }
+
+var errVerifWrapsEOF error = verifEOFWrap{}
 
 // VerifC14Reader: the reader delivers the first k rows of a well-formed document and then fails with a fresh
 // error; every sequential From-Markdown route must return that error (recognisable with errors.Is).
